@@ -22,7 +22,7 @@ import os
 import sys
 
 HERE = os.path.dirname(os.path.abspath(__file__))
-SRC = '/repo/src/icalendar'
+SRC = os.path.join(os.environ.get('VERIF_REPO', '/repo'), 'src', 'icalendar')
 OUT = os.path.join(HERE, '..', 'lean', 'ICal', 'Gen')
 
 
